@@ -12,6 +12,7 @@ mod ops_case;
 mod ops_compound;
 mod ops_variant;
 mod ops_serde;
+mod ops_panic;
 mod ops_line;
 mod ops_match;
 mod ops_undo;
@@ -28,6 +29,7 @@ const HANDLERS: &[fn(&[&str]) -> Option<String>] = &[
     ops_compound::dispatch,
     ops_variant::dispatch,
     ops_serde::dispatch,
+    ops_panic::dispatch,
     ops_line::dispatch,
     ops_match::dispatch,
     ops_undo::dispatch,
